@@ -29,6 +29,7 @@ EXPLANATION = ("a: the closure handed to thread::spawn in execute_rules_parallel
                "undo_frames,data,fact_types} form an acyclic order with no same-object re-entrancy; chunk size is len.div_ceil("
                "max_threads) fed to chunks().")
 EXPLANATION += " c (added): the buffer the level's results are read from is created empty inside execute_rules_parallel (a buffer shared across levels re-reports earlier levels). b (added): an ordered map walked with .rev() is accepted as descending level order; joining through handles.into_iter().try_for_each(|h| h.join()..) is accepted."
+EXPLANATION += ' c (added): no Barrier / Condvar / channel recv / park is reachable from the worker closures (workers never wait for each other: the number of chunks can be smaller than any precomputed worker count).'
 FLOORS = {"spawn_sites": 1, "lock_sites": 30}
 
 PE = "engine::parallel::ParallelRuleEngine"
@@ -375,6 +376,20 @@ def _returns(P, R):
             R.violate("c", "results-buffer-not-per-level", "execute_rules_parallel publishes into a results buffer it did not create (`%s`): contexts of earlier levels are still in it and are returned again" % fmt_named(rs, 5)[:80], par, r.line)
         else:
             R.undecide("c", "results-buffer", "origin of the results buffer not recognised (`%s`)" % fmt_named(rs, 5)[:80], par, r.line)
+    # workers never wait for each other: a rendezvous (Barrier, Condvar, channel recv) inside a worker returns only if every party
+    # arrives, and the number of chunks `rules.chunks(ceil(n / k))` yields can be smaller than k - the level then never returns
+    waits = []
+    roots_ = [par.name] + [g_.name for g_ in P.closures_of(par)]
+    for reach_nm in sorted(P.reachable_fns([r_ for r_ in roots_ if r_ in P.fns])):
+        g_ = P.fns[reach_nm]
+        for cc in g_.calls():
+            if cc.bb in g_.normal_blocks() and cc.name.endswith(("Barrier::wait", "Condvar::wait", "Condvar::wait_while", "Receiver<T>::recv", "mpsc::Receiver::recv", "thread::park")):
+                waits.append((g_, cc))
+    if waits:
+        g_, cc = waits[0]
+        R.violate("c", "worker-rendezvous", "a worker thread blocks in %s (line %d): it returns only when every expected party arrives, but the number of workers actually spawned (one per chunk) can be smaller than the count the rendezvous was sized with - execute_parallel then never returns" % (cc.name.rsplit("::", 2)[-2] + "::" + cc.name.rsplit("::", 1)[-1], cc.line), g_, cc.line)
+    else:
+        R.hold("c", "workers do not wait for each other (no Barrier / Condvar / recv / park reachable from the spawned closure)", fn=par)
     # spawned handles all land in `handles`
     # chunking
     dc = [c for c in par.calls() if c.name.endswith("::div_ceil") and c.bb in par.normal_blocks()]
